@@ -24,20 +24,32 @@ func pairKinds() []reqKind {
 	who := func(s int) string { return []string{Carol, Dave}[s] }
 	rn := func(s int) string { return []string{RNote, RNote2}[s] }
 	in := func(n string, s int, body M) *Scenario { return inReq(fmt.Sprintf("%s#%d", n, s), inbox(Alice), body) }
-	out := func(n string, s int, body M) *Scenario { return outReq(fmt.Sprintf("%s#%d", n, s), outbox(Alice), body) }
+	out := func(n string, s int, body M) *Scenario {
+		return outReq(fmt.Sprintf("%s#%d", n, s), outbox(Alice), body)
+	}
 	get := func(n, entry, url string, s int) *Scenario {
 		return &Scenario{Name: fmt.Sprintf("%s#%d", n, s), Kind: ap.Both, Entry: entry, URL: url}
 	}
 	return []reqKind{
 		{"in-like", func(s int) *Scenario { return in("in-like", s, like(act(s), who(s), Note1)) }},
-		{"in-announce", func(s int) *Scenario { return in("in-announce", s, Doc("Announce", act(s), "actor", who(s), "object", Note1)) }},
-		{"in-follow", func(s int) *Scenario { return in("in-follow", s, Doc("Follow", act(s), "actor", who(s), "object", Alice)) }},
-		{"in-accept", func(s int) *Scenario { return in("in-accept", s, Doc("Accept", act(s), "actor", Carol, "object", Follow1)) }},
-		{"in-add", func(s int) *Scenario { return in("in-add", s, Doc("Add", act(s), "actor", who(s), "object", rn(s), "target", Col1)) }},
+		{"in-announce", func(s int) *Scenario {
+			return in("in-announce", s, Doc("Announce", act(s), "actor", who(s), "object", Note1))
+		}},
+		{"in-follow", func(s int) *Scenario {
+			return in("in-follow", s, Doc("Follow", act(s), "actor", who(s), "object", Alice))
+		}},
+		{"in-accept", func(s int) *Scenario {
+			return in("in-accept", s, Doc("Accept", act(s), "actor", Carol, "object", Follow1))
+		}},
+		{"in-add", func(s int) *Scenario {
+			return in("in-add", s, Doc("Add", act(s), "actor", who(s), "object", rn(s), "target", Col1))
+		}},
 		{"in-add-two-targets", func(s int) *Scenario {
 			return in("in-add-two-targets", s, Doc("Add", act(s), "actor", who(s), "object", rn(s), "target", []L{{Col1, OCol1}, {OCol1, Col1}}[s]))
 		}},
-		{"in-remove", func(s int) *Scenario { return in("in-remove", s, Doc("Remove", act(s), "actor", who(s), "object", Dave, "target", Col1)) }},
+		{"in-remove", func(s int) *Scenario {
+			return in("in-remove", s, Doc("Remove", act(s), "actor", who(s), "object", Dave, "target", Col1))
+		}},
 		{"in-create-forwarded", func(s int) *Scenario {
 			return in("in-create-forwarded", s, Doc("Create", act(s), "actor", who(s), "to", L{Col1}, "object",
 				Emb("Note", act(s)+"/n", "attributedTo", who(s), "content", "x", "inReplyTo", Note1)))
@@ -45,16 +57,26 @@ func pairKinds() []reqKind {
 		{"in-update", func(s int) *Scenario {
 			return in("in-update", s, Doc("Update", act(s), "actor", Carol, "object", Emb("Note", RNote, "attributedTo", Carol, "content", fmt.Sprintf("edited by %d", s))))
 		}},
-		{"in-delete", func(s int) *Scenario { return in("in-delete", s, Doc("Delete", act(s), "actor", Carol, "object", RNote)) }},
-		{"out-note", func(s int) *Scenario { return out("out-note", s, Doc("Note", "", "content", fmt.Sprintf("note %d", s), "to", who(s))) }},
+		{"in-delete", func(s int) *Scenario {
+			return in("in-delete", s, Doc("Delete", act(s), "actor", Carol, "object", RNote))
+		}},
+		{"out-note", func(s int) *Scenario {
+			return out("out-note", s, Doc("Note", "", "content", fmt.Sprintf("note %d", s), "to", who(s)))
+		}},
 		{"out-like", func(s int) *Scenario { return out("out-like", s, Doc("Like", "", "actor", Alice, "object", rn(s))) }},
 		{"out-update", func(s int) *Scenario {
 			return out("out-update", s, Doc("Update", "", "actor", Alice, "object", Emb("Note", Note1, "content", fmt.Sprintf("edited %d", s))))
 		}},
 		{"out-delete", func(s int) *Scenario { return out("out-delete", s, Doc("Delete", "", "actor", Alice, "object", Note1)) }},
-		{"out-add", func(s int) *Scenario { return out("out-add", s, Doc("Add", "", "actor", Alice, "object", rn(s), "target", Col1)) }},
-		{"out-remove", func(s int) *Scenario { return out("out-remove", s, Doc("Remove", "", "actor", Alice, "object", Dave, "target", Col1)) }},
-		{"out-follow", func(s int) *Scenario { return out("out-follow", s, Doc("Follow", "", "actor", Alice, "object", who(s), "to", who(s))) }},
+		{"out-add", func(s int) *Scenario {
+			return out("out-add", s, Doc("Add", "", "actor", Alice, "object", rn(s), "target", Col1))
+		}},
+		{"out-remove", func(s int) *Scenario {
+			return out("out-remove", s, Doc("Remove", "", "actor", Alice, "object", Dave, "target", Col1))
+		}},
+		{"out-follow", func(s int) *Scenario {
+			return out("out-follow", s, Doc("Follow", "", "actor", Alice, "object", who(s), "to", who(s)))
+		}},
 		{"out-block", func(s int) *Scenario { return out("out-block", s, Doc("Block", "", "actor", Alice, "object", who(s))) }},
 		{"get-inbox", func(s int) *Scenario { return get("get-inbox", "GetInbox", inbox(Alice), s) }},
 		{"get-outbox", func(s int) *Scenario { return get("get-outbox", "GetOutbox", outbox(Alice), s) }},
@@ -70,8 +92,11 @@ func PairCorpus() []*ConcScenario {
 	for i := range ks {
 		for j := i; j < len(ks); j++ {
 			out = append(out, &ConcScenario{Name: "pair/" + ks[i].name + "+" + ks[j].name,
-				Tweak: func(a *ap.App) { a.OnFollow = pub.OnFollowAutomaticallyAccept; a.PutDoc(Doc("Note", RNote, "attributedTo", Carol, "content", "cached copy")) },
-				Reqs:  []*Scenario{ks[i].mk(0), ks[j].mk(1)}})
+				Tweak: func(a *ap.App) {
+					a.OnFollow = pub.OnFollowAutomaticallyAccept
+					a.PutDoc(Doc("Note", RNote, "attributedTo", Carol, "content", "cached copy"))
+				},
+				Reqs: []*Scenario{ks[i].mk(0), ks[j].mk(1)}})
 		}
 	}
 	return out
@@ -109,8 +134,11 @@ func TripleCorpus() []*ConcScenario {
 		for j := i; j < len(ks); j++ {
 			for l := j + 1; l < len(ks); l++ {
 				out = append(out, &ConcScenario{Name: "triple/" + ks[i].name + "+" + ks[j].name + "+" + ks[l].name,
-					Tweak: func(a *ap.App) { a.OnFollow = pub.OnFollowAutomaticallyAccept; a.PutDoc(Doc("Note", RNote, "attributedTo", Carol, "content", "cached copy")) },
-					Reqs:  []*Scenario{ks[i].mk(0), ks[j].mk(1), third(ks[l])}})
+					Tweak: func(a *ap.App) {
+						a.OnFollow = pub.OnFollowAutomaticallyAccept
+						a.PutDoc(Doc("Note", RNote, "attributedTo", Carol, "content", "cached copy"))
+					},
+					Reqs: []*Scenario{ks[i].mk(0), ks[j].mk(1), third(ks[l])}})
 			}
 		}
 	}
@@ -131,10 +159,14 @@ func OrderCorpus() []*ConcScenario {
 		return L{b, a}
 	}
 	in := func(n string, s int, body M) *Scenario { return inReq(fmt.Sprintf("%s#%d", n, s), inbox(Alice), body) }
-	out := func(n string, s int, body M) *Scenario { return outReq(fmt.Sprintf("%s#%d", n, s), outbox(Alice), body) }
+	out := func(n string, s int, body M) *Scenario {
+		return outReq(fmt.Sprintf("%s#%d", n, s), outbox(Alice), body)
+	}
 	rNoteA, rNoteB := "https://r1.example/n/new-a", "https://r1.example/n/new-b"
 	kinds := []reqKind{
-		{"in-like-2", func(s int) *Scenario { return in("in-like-2", s, Doc("Like", act(s), "actor", who(s), "object", ord(s, Note1, Note2))) }},
+		{"in-like-2", func(s int) *Scenario {
+			return in("in-like-2", s, Doc("Like", act(s), "actor", who(s), "object", ord(s, Note1, Note2)))
+		}},
 		{"in-announce-2", func(s int) *Scenario {
 			return in("in-announce-2", s, Doc("Announce", act(s), "actor", who(s), "object", ord(s, Note1, Note2)))
 		}},
@@ -167,7 +199,9 @@ func OrderCorpus() []*ConcScenario {
 		{"in-delete-2-objects", func(s int) *Scenario {
 			return in("in-delete-2-objects", s, Doc("Delete", act(s), "actor", Carol, "object", ord(s, RNote, RNote2)))
 		}},
-		{"out-like-2", func(s int) *Scenario { return out("out-like-2", s, Doc("Like", "", "actor", Alice, "object", ord(s, RNote, RNote2))) }},
+		{"out-like-2", func(s int) *Scenario {
+			return out("out-like-2", s, Doc("Like", "", "actor", Alice, "object", ord(s, RNote, RNote2)))
+		}},
 		{"out-add-2-targets", func(s int) *Scenario {
 			return out("out-add-2-targets", s, Doc("Add", "", "actor", Alice, "object", []string{RNote, RNote2}[s], "target", ord(s, Col1, OCol1)))
 		}},
